@@ -40,13 +40,19 @@ def run(ctx):
     from .c04 import redirect_spellings
     ctx.rule("R9", "redirect-domain pattern is insensitive to host case and port spelling: the hostname helpers resolve once on the url as written while fingerprint_url resolves again on a lower-cased copy")
     redirect_spellings(ctx, "R9")
+    U.rule_punycode(ctx, "R10")
+    from .c20 import protocol_language
+    protocol_language(ctx, "R11")
 
 
 AGREE_HOSTS = ["www.a.com", "WWW.A.COM", "a.com.", "www.a.com.", "m.a.co.uk.", "amp-www.a.com", "www.amp-x.com", "fr.a.com", "fr-FR.a.co.uk", "xn--caf-dma.fr", "caf\u00e9.fr", "b.a.co.uk", "a.com..", "mobile.a.com:8080", "127.0.0.1", "localhost"]
 
 
+AGREE_OPTION_URLS = ["https://www-a-com.cdn.ampproject.org/c/s/www.a.com/p.amp.html", "http://r.org/?url=http%3A%2F%2Fwww.a.com%2Fp", "http://amp.a.com/p", "http://amp-www.a.com/p", "http://www.a.com/p"]
+
+
 def agreement_table(ctx, rule):
-    ctx.rule(rule, "model table (helper = url function on representatives): for one host per class {www / m / mobile / amp- prefixes, upper case, trailing root dot(s), language labels, punycode / unicode, multi-label suffix, port, IP, localhost}, normalize_hostname(h) and get_normalized_hostname(url) are the host of normalize_url(url), fingerprint_hostname(h) and get_fingerprinted_hostname(url) are the host of fingerprint_url(url), for strip_suffix off and on (all interpreted; suffix list = the miniature one)")
+    ctx.rule(rule, "model table (helper = url function on representatives): for one host per class {www / m / mobile / amp- prefixes, upper case, trailing root dot(s), language labels, punycode / unicode, multi-label suffix, port, IP, localhost} and for {AMP cache url, redirecting url, amp. / amp- host} x {normalize_amp, infer_redirection on / off}, normalize_hostname(h) and get_normalized_hostname(url) are the host of normalize_url(url), fingerprint_hostname(h) and get_fingerprinted_hostname(url) are the host of fingerprint_url(url), for strip_suffix off and on (all interpreted; suffix list = the miniature one)")
     from . import tables as TB
     repo = ctx.repo
     nm = repo.mod("normalize_url")
@@ -83,9 +89,17 @@ def agreement_table(ctx, rule):
                         continue
                     ctx.ob(rule, "%s/%s%s" % (fname, "strip_suffix/" if ss else "", h), got == want_f,
                            "%s(%r, strip_suffix=%s) gives %r but the host of fingerprint_url(%r, strip_suffix=%s) is %r" % (fname, arg, ss, got, url, ss, want_f), site_f, witness=url)
+        # the options the helper shares with the url function mean the same thing in both
+        for url in AGREE_OPTION_URLS:
+            for opts in ({}, {"normalize_amp": False}, {"infer_redirection": False}, {"normalize_amp": False, "infer_redirection": False}):
+                want = host_of(TB.call_s(repo, "normalize_url", "normalize_url", url, **opts))
+                got = TB.call_s(repo, "normalize_url", "get_normalized_hostname", url, **opts)
+                n += 1
+                ctx.ob(rule, "get_normalized_hostname/%s/%s" % (url, ",".join(sorted(opts)) or "defaults"), got == want,
+                       "get_normalized_hostname(%r%s) gives %r but the host of normalize_url with the same options is %r" % (url, "".join(", %s=%r" % kv for kv in sorted(opts.items())), got, want), site_n, witness=url)
     except Unknown as e:
         ctx.undecided(rule, "hostname helpers not interpretable: %s" % e)
-    ctx.require_instances(rule, n, 6 * len(AGREE_HOSTS) - 6, "(helper, host) cells")
+    ctx.require_instances(rule, n, 6 * len(AGREE_HOSTS) - 6 + 4 * len(AGREE_OPTION_URLS) - 2, "(helper, host) cells")
 
 
 def host_helpers(ctx, rule, n):
